@@ -28,6 +28,7 @@ func c04Specs(tier string) []spaceSpec {
 			{sp: &gram.Space{Name: "core-1nt", Alpha: gram.Core, NNT: 1, Min: 6, Max: 6}, maxLen: 4, alpha: ab},
 			{sp: &gram.Space{Name: "full-2nt", Alpha: gram.Full, NNT: 2, Min: 2, Max: 5}, maxLen: 3, alpha: ab},
 			{sp: &gram.Space{Name: "all-combinators-1nt", Alpha: fullAll, NNT: 1, Min: 2, Max: 5}, maxLen: 3, alpha: ab},
+			{sp: &gram.Space{Name: "core1-2nt-mutual", Alpha: gram.Core1, NNT: 2, Min: 2, Max: 8}, maxLen: 3, alpha: []byte{'a'}, mutualOnly: true},
 		}
 	}
 	return []spaceSpec{
@@ -35,6 +36,7 @@ func c04Specs(tier string) []spaceSpec {
 		{sp: &gram.Space{Name: "core-1nt", Alpha: gram.Core, NNT: 1, Min: 5, Max: 5}, maxLen: 4, alpha: ab},
 		{sp: &gram.Space{Name: "full-2nt", Alpha: gram.Full, NNT: 2, Min: 2, Max: 4}, maxLen: 3, alpha: ab},
 		{sp: &gram.Space{Name: "all-combinators-1nt", Alpha: fullAll, NNT: 1, Min: 2, Max: 4}, maxLen: 3, alpha: ab},
+		{sp: &gram.Space{Name: "core1-2nt-mutual", Alpha: gram.Core1, NNT: 2, Min: 2, Max: 7}, maxLen: 2, alpha: []byte{'a'}, mutualOnly: true},
 	}
 }
 
